@@ -56,7 +56,7 @@ def for_property(prop):
         if not mine:
             continue
         sh("git checkout -- . && git clean -fdq crates", WT)
-        rc, o = sh("git apply %s" % f, WT)
+        rc, o = sh("git apply %s || (git apply --3way %s && git reset -q)" % (f, f), WT)
         if rc != 0:
             res["missed"].append(name + " (patch does not apply)")
             continue
@@ -101,7 +101,7 @@ def main():
         if flt and flt not in name:
             continue
         sh("git checkout -- . && git clean -fdq crates", WT)
-        rc, o = sh("git apply %s" % f, WT)
+        rc, o = sh("git apply %s || (git apply --3way %s && git reset -q)" % (f, f), WT)
         if rc != 0:
             print("%-8s %-50s PATCH DOES NOT APPLY" % (kind, name)); fails += 1; continue
         props = PROPS if kind == "neutral" or not exp else sorted(set(exp.get("checks", PROPS)))
